@@ -13,14 +13,14 @@ TRUSTED = ("Trusted base: shuttle 0.9.3's execution engine; the parking_lot shim
 CHECKS = {
  "C01": ("hist", "exploration", "Seeded simulation of single-client histories x configurations x background-thread timing on the simulated disk; every read compared with a BTreeMap reference model operation by operation. A clean batch is evidence over the explored runs.", "§3 C01", "deterministic simulation: seeded histories + scheduler-controlled background thread vs reference model"),
  "C02": ("crash", "fault_enumeration", "Crash points = prefixes of the totally ordered mutating-filesystem-operation log of recorded base executions (all prefixes in the thorough tier, biased sample in the quick tier), incl. nested crashes inside recovery; each recovered image is checked against the model of acknowledged writes with the in-flight batch all-or-nothing, then written to, closed and reopened. Complete over fault positions per explored execution; executions are sampled.", "§3 C02", "deterministic simulation + fault injection: crash-point enumeration over a recorded filesystem operation log with recovery simulation per image"),
- "C03": ("hist+conc", "exploration", "Seeded simulation in which snapshots/iterators outlive writes, flushes, manual and background compactions and file deletion; each is re-read against a frozen model clone and get/scan agreement is checked.", "§3 C03", "deterministic simulation: long-lived snapshots/iterators vs frozen reference models under scheduler-controlled compaction"),
+ "C03": ("hist+conc", "exploration", "Seeded simulation in which snapshots/iterators outlive writes, flushes, manual and background compactions and file deletion; each is re-read against a frozen model clone and get/scan agreement is checked; in concurrent runs what a snapshot / iterator shows per key is checked as a read inside the call that created it (per-key linearizability with view reads), keys written by one client only must show a state that exists between two of its writes, and cursor programs run on live iterators against their own first scan.", "§3 C03", "deterministic simulation: long-lived snapshots/iterators vs frozen reference models under scheduler-controlled compaction"),
  "C04": ("hist", "exploration", "Seeded cursor programs on iterators whose underlying layout is produced by the background thread under scheduler control; model cursor compared after every step.", "§3 C04", "deterministic simulation: iterator cursor programs vs sorted-map cursor while compaction runs under the simulator's scheduler"),
- "C05": ("conc", "exploration", "Seeded concurrent runs (2-5 client tasks + background thread) under Random/Sticky/PCT/Freeze schedulers (a scheduling point follows every mutex release; alignment directives start a client operation exactly when another task has just released the database mutex, sits in an unlocked section or in a filesystem call); the invoke/return history stamped with the global event sequence is checked per key for linearizability (memoised WGL search) including the final state.", "§3 C05", "deterministic simulation: seeded schedule search (PCT, Freeze at unlock sites) + per-key linearizability check of the recorded history"),
- "C06": ("conc", "exploration", "Writers apply same-tag batches to row groups while readers take snapshot/iterator reads; a scheduling point after every memtable insert (H4) and around the WAL append lets the scheduler park the writer anywhere inside the batch; any read showing two tags in one group is a violation.", "§3 C06", "deterministic simulation: seeded schedule search with scheduling points inside batch application + group-consistency oracle"),
+ "C05": ("conc", "exploration", "Seeded concurrent runs (2-5 client tasks + background thread) under Random/Sticky/PCT/Freeze schedulers (a scheduling point follows every mutex release; alignment directives start a client operation exactly when another task has just released the database mutex, sits in an unlocked section or in a filesystem call); the invoke/return history stamped with the global event sequence is checked per key for linearizability (memoised WGL search) including the final state and the values shown by snapshots and iterators (as reads inside the call that created the view).", "§3 C05", "deterministic simulation: seeded schedule search (PCT, Freeze at unlock sites) + per-key linearizability check of the recorded history"),
+ "C06": ("conc", "exploration", "Writers apply same-tag batches to row groups while readers take snapshot/iterator reads; a scheduling point after every memtable insert (H4) and around the WAL append lets the scheduler park the writer anywhere inside the batch; any read showing two tags in one group is a violation; where a writer overwrites or deletes only part of its group, the group must show a state that exists between two of that writer's batches.", "§3 C06", "deterministic simulation: seeded schedule search with scheduling points inside batch application + group-consistency oracle"),
  "C07": ("hist+conc", "exploration", "Every flush / compact_range / quiesce of seeded histories is bracketed by full dumps and by gets of sampled keys (latest state + every live snapshot) that must be identical and equal to the model; a close + reopen must not change the contents either; concurrent readers dump while compactions run.", "§3 C07", "deterministic simulation: before/after dumps around flushes and compactions under controlled schedules"),
- "C08": ("iofault", "fault_enumeration", "The filesystem calls of a plan are numbered by a fault-free run; the plan is re-executed with the same scheduler seed once per (call position, mode in {transient, sticky, partial write}); Ok/Err outcomes of writes, gets, full scans and iterator seeks under the armed fault, and the contents after disarm + reopen, are checked against the set of states explainable by the Ok writes plus a subset of the failed ones. Complete over fault positions per explored execution in the thorough tier; executions sampled.", "§3 C08", "deterministic simulation + fault injection: single-failure enumeration over the numbered filesystem-call stream (transient / sticky / partial write)"),
+ "C08": ("iofault", "fault_enumeration", "The filesystem calls of a plan are numbered by a fault-free run; the plan is re-executed with the same scheduler seed once per (call position, mode in {transient, sticky, partial write}); in a third of the faulted runs a second, transient fault hits a drawn call of the recovery that follows; Ok/Err outcomes of writes, gets, full scans and iterator walks and seeks (incl. a seek back to the key at which a step failed) under the armed fault, and the contents after disarm + reopen, are checked against the set of states explainable by the Ok writes plus a subset of the failed ones. Complete over fault positions per explored execution in the thorough tier; executions sampled.", "§3 C08", "deterministic simulation + fault injection: single-failure enumeration over the numbered filesystem-call stream (transient / sticky / partial write)"),
  "C09": ("hist+conc", "exploration", "Any panic of a RainDB thread or client call, deadlock, re-entrant lock acquisition or background error in simulated runs (incl. every descriptor kind; 5% of the runs enumerate transient filesystem faults, after which the filesystem makes progress again) is a violation; shuttle's deadlock detector decides hangs, a step bound with a fair re-run decides livelocks, a wall-clock watchdog decides loops that never yield, a supervising process decides runs that kill their process; a third of the concurrent runs close the database right after the last client returned, aligned with the moment the background thread releases the database mutex.", "§3 C09", "deterministic simulation: deadlock/panic detection over seeded schedules"),
- "C10": ("hist+crash", "exploration", "Structured LSM shape checked at every quiescent point of seeded histories incl. after reopen: sorted, disjoint, exact bounds (tables read back), unique numbers; cross-checked with descriptors.", "§3 C10", "deterministic simulation: shape invariant monitored along simulated histories"),
+ "C10": ("hist+crash", "exploration", "Structured LSM shape checked at every quiescent point of seeded histories incl. after reopen: sorted, disjoint, exact bounds (tables read back), unique numbers; cross-checked with descriptors; the structural part also at arbitrary moments while writers and the background thread are active (single-client and concurrent runs).", "§3 C10", "deterministic simulation: shape invariant monitored along simulated histories"),
  "C12": ("logsim", "fault_enumeration", "Real LogWriter/LogReader on the simulated disk: complete enumeration of a block-boundary grid x {single writer, clean re-open, writer death between fragments} and truncation at every byte (small logs) or every byte around every boundary (large logs); reader output compared with the list of complete records.", "§3 C12", "fault injection on the simulated disk: truncation-offset and writer-death enumeration over a boundary grid of record lengths"),
  "C15": ("corrupt", "fault_enumeration", "Single-byte mutations (bit flip / zero / random byte) at every or sampled offsets of every table, WAL and manifest file of recorded images, structure-aware rewrites of log record types and of Snappy chunk headers inside compressed table blocks, plus table truncations; one image in eight holds a 70 KiB-1.1 MiB value (multi-frame compressed block or large raw block); each mutated image gets a reopen simulation (gets, forward and backward scans, an iterator cursor program with seeks to present and absent keys and direction reversals) whose every answer must be an error or exactly the model's answer (WAL: model minus whole WAL-resident batches).", "§3 C15", "fault injection on recorded filesystem images: per-offset corruption enumeration with reopen simulation against the reference model"),
  "C16": ("crash", "fault_enumeration", "Every write of recorded base executions is torn at 1 byte / half / all-but-one / seeded lengths; recovery with both reuse settings, further writes crossing and not crossing the torn block, clean close and reopen are checked against the model; a quarter of the recoveries are themselves crashed with a torn write.", "§3 C16", "deterministic simulation + fault injection: torn-write enumeration over a recorded filesystem operation log with recovery simulation per image"),
